@@ -3,7 +3,7 @@
    prod, sumbool, sumor -> OCaml types).  No Extract Constant of our own;
    Z / positive / nat stay Coq inductives. *)
 From Coq Require Extraction ExtrOcamlBasic.
-From Tbfmm Require Import Base.Prelude Base.Search Index.OverflowDefs Index.MortonDefs Tree.GroupDefs Index.ListsDefs Tree.BuildDefs Tree.ExportDefs Exec.ExecDefs Exec.CounterDefs Exec.ExecTsmDefs Exec.ExecPeriodicDefs Mem.LayoutDefs Num.P2PDefs Num.P2PSF.
+From Tbfmm Require Import Base.Prelude Base.Search Index.OverflowDefs Index.MortonDefs Tree.GroupDefs Index.ListsDefs Tree.BuildDefs Tree.ExportDefs Exec.ExecDefs Exec.CounterDefs Exec.ExecTsmDefs Exec.ExecPeriodicDefs Mem.LayoutDefs Num.P2PDefs Num.P2PSF Float.LocateDefs.
 Extraction Blacklist List String Int.
 Set Extraction KeepSingleton.
 Extraction "model.ml"
@@ -13,6 +13,6 @@ Extraction "model.ml"
   ilist_cell nlist_cell ilist_block nlist_block self_block
   mk_cgroup elem_from_index elem_from_parent lower_bound_opt
   build find_cell find_leaf cg_find cg_find_parent pg_find
-  full_remote full_mutual inner sf_ops sf_of_bits bits_of_sf
+  locate1 locate1_ndebug full_remote full_mutual inner sf_ops sf_of_bits bits_of_sf
   count_trace merge_counters reduce execute execute_tsm periodic_run repetition_interval nb_repetitions export_get rebuild
   reset init_header elem_offset offsets total mb_empty rows_of elem_size block_bytes.
